@@ -91,6 +91,37 @@ def cbor_hostile(rng):
             b"\x9b\xff\xff\xff\xff\xff\xff\xff\xff", b"\xbb\x7f\xff\xff\xff\xff\xff\xff\xff", b"\x7b\x7f\xff\xff\xff\xff\xff\xff\xff\x61", b"\x81" * 2000 + b"\x00",
             b"\x9f" * 1500, b"\xbf\x61\x61" * 600, b"\xd8\x28\x82\x82\x02\x02\x84\x01\x02\x03\x04", b"\xd9\x04\x10\x82\x82\x02\x02\x84\x01\x02\x03\x04",
             b"\xd8\x28\x82\x82\x1b\xff\xff\xff\xff\xff\xff\xff\xff\x02\x80", b"\xd8\x28\x82\x80\x80", b"\xd8\x28\x80"]
+    out += cbor_mdarrays()
+    return out
+
+
+def cbor_mdarrays():
+    """RFC 8746 multi-dimensional arrays (tags 40 row-major / 1040 column-major) over every typed-array storage (tags 64..87) and a classical
+    array, with extents that match, are off by one, are zero, are huge, or only match after wrapping: a product of extents, or that product
+    times the element size, that is congruent to the real element count modulo 2^64"""
+    out = []
+    ELEM = {64: 1, 65: 2, 66: 4, 67: 8, 68: 1, 69: 2, 70: 4, 71: 8, 72: 1, 73: 2, 74: 4, 75: 8, 76: 1, 77: 2, 78: 4, 79: 8,
+            80: 2, 81: 4, 82: 8, 83: 16, 84: 2, 85: 4, 86: 8, 87: 16}
+    M = 2 ** 64
+    for md in (b"\xd8\x28", b"\xd9\x04\x10"):
+        for tag, es in ELEM.items():
+            for count in (4, 6):
+                storage = b"\xd8" + bytes([tag]) + binfmt.cbor_head(2, count * es) + bytes((7 * i + 1) % 251 for i in range(count * es))
+                exts = [[2, count // 2], [count], [count + 1], [count - 1], [0], [count, 0], [1, count, 1], [M - 1], [2 ** 63, 2], [2 ** 32, 2 ** 32], [2 ** 32, 2 ** 32, count]]
+                for k in range(1, min(es, 8)):
+                    m = count + k * (M // es)          # (m * es) mod 2^64 = count * es: only the byte-length comparison wraps
+                    if m < M:
+                        exts.append([m])
+                        if m % 2 == 0:
+                            exts.append([2, m // 2])
+                exts.append([2 ** 63 + count // 2, 2])   # the product of the extents itself wraps to `count`
+                for e in exts:
+                    ea = binfmt.cbor_head(4, len(e)) + b"".join(binfmt.cbor_head(0, x) for x in e)
+                    out.append(md + b"\x82" + ea + storage)
+        plain = b"\x86" + bytes([1, 2, 3, 4, 5, 6])
+        for e in ([2, 3], [3, 2], [6], [7], [2, 2], [0], [M - 1, 2], [2 ** 63 + 3, 2], [2 ** 32, 2 ** 32]):
+            ea = binfmt.cbor_head(4, len(e)) + b"".join(binfmt.cbor_head(0, x) for x in e)
+            out.append(md + b"\x82" + ea + plain)
     return out
 
 
